@@ -80,6 +80,10 @@ fn script(d: &'static dyn OpDriver, outcome: Outcome, status: Option<StatusCode>
     })
 }
 
+fn base_method(d: &dyn OpDriver) -> String {
+    sdk::base_requests().iter().find(|b| b.op == d.name()).map(|b| b.req.method.clone()).unwrap_or_default()
+}
+
 fn expected_status(model: &OpModel, d: &dyn OpDriver, alts: &[usize]) -> u16 {
     if model.name == "GetObject" && !d.output_absent(alts).contains(&"content_range") {
         return 206;
@@ -161,6 +165,11 @@ fn part_a(acc: &mut Acc, tier: Tier) -> usize {
         cases.push((di, vec![]));
         for i in 0..labels.len() {
             cases.push((di, vec![i]));
+        }
+        // every optional top-level member present at once (except a stream and its length, which must agree: see below)
+        let all_present: Vec<usize> = labels.iter().enumerate().filter(|(_, l)| l.ends_with("=Some(base)") && l.matches('.').count() == 1).map(|(i, _)| i).collect();
+        if all_present.len() > 2 {
+            cases.push((di, all_present));
         }
         if tier == Tier::Thorough {
             for i in 0..labels.len() {
@@ -272,6 +281,22 @@ fn part_a(acc: &mut Acc, tier: Tier) -> usize {
         }
         if resp.body_error.is_some() {
             a.fail(&format!("C03/body-error/{}", d.name()), order, id(), format!("response body failed: {:?}", resp.body_error), json!({}));
+        }
+        // a streamed member arrives byte for byte, however the backend chunked it, and agrees with Content-Length
+        if let Some(want) = block_on(d.output_body(alts)) {
+            if base_method(d) != "HEAD" {
+                if resp.body() == want {
+                    a.outcome("raw: streamed body byte-identical");
+                } else {
+                    a.outcome("raw: STREAMED BODY DIFFERS");
+                    a.fail(&format!("C03/streamed-body-differs/{}", d.name()), order, id(), format!("{}: the backend streamed {} bytes ({lab}); the response body has {} bytes", d.name(), want.len(), resp.body().len()), json!({"sent": String::from_utf8_lossy(&want).chars().take(200).collect::<String>(), "received": resp.body_str().chars().take(200).collect::<String>()}));
+                }
+            }
+            if let Some(cl) = resp.headers.get("content-length").and_then(|v| v.to_str().ok()).and_then(|v| v.parse::<usize>().ok()) {
+                if base_method(d) != "HEAD" && cl != resp.body().len() {
+                    a.fail(&format!("C03/content-length-disagrees-with-body/{}", d.name()), order, id(), format!("Content-Length {cl} but {} body bytes", resp.body().len()), json!({}));
+                }
+            }
         }
         let ct = resp.headers.get("content-type").and_then(|v| v.to_str().ok()).unwrap_or("");
         if ct == "application/xml" && !resp.body().is_empty() && d.name() != "SelectObjectContent" {
